@@ -161,6 +161,12 @@ WitnessGenuine ==
 FinalTableIsLALR ==
   phase = "ok" => TablesMatchWhy(tctx, tls, AsTable).ok
 
+\* C14: the dense table is a function of the recorded cells alone - the order in which build_as_is copied them
+\* (hash-map iteration order) leaves no trace
+FillOrderIrrelevant ==
+  phase = "ok" => /\ \A key \in DOMAIN tabA : tabA[key] = IF key \in DOMAIN cells THEN cells[key].act ELSE <<"e", 0>>
+                  /\ \A key \in DOMAIN tabG : tabG[key] = IF key \in DOMAIN gotos THEN gotos[key] ELSE -1
+
 \* order-free fingerprint
 TView == <<tg, mach, phase, spos, rem, cells, conflict, tabA, tabG>>
 =============================================================================
